@@ -19,11 +19,11 @@ struct Interp {
     Ctx &ctx;
     explicit Interp(Ctx &c) : ctx(c) {}
 
-    // tuple op: ints = present mask (7 bits), slashes(0/1), outcome(0..3), port number for the lookup ; strs = 7 component texts
+    // tuple op: ints = present mask (7 bits), slashes(0/1), outcome(0..4), port number for the lookup ; strs = 7 component texts
     void tuple(const Op &op) {
         long mask = op.i(0);
         bool slashes = op.i(1) & 1;
-        int outcome = (int)(((op.i(2) % 4) + 4) % 4), lport = (int)(op.i(3) % 65536);
+        int outcome = (int)(((op.i(2) % 5) + 5) % 5), lport = (int)(op.i(3) % 65536);
         Comps want(7, {false, ""});
         for (int k = 0; k < 7; k++) { want[(size_t)k].first = (mask >> k) & 1; want[(size_t)k].second = op.s((size_t)k); }
         auto &proto = want[0], &user = want[1], &passwd = want[2], &host = want[3], &port = want[4], &path = want[5], &query = want[6];
@@ -68,7 +68,7 @@ struct Interp {
             VT_CHECK(ctx, got[4].first == expect_fill, "mismatch", "default-port; port " << (got[4].first ? "filled with '" + got[4].second + "'" : "not filled") << " for \"" << printable(text, 60) << "\" with lookup outcome " << outcome);
         }
         if (!proto.first) VT_CHECK(ctx, c14_lookup_calls() == 0 || !unambiguous, "mismatch", "lookup-without-proto; the service database was consulted although no protocol was given: \"" << printable(text, 60) << "\"");
-        static const char *on[] = {"neither", "protocol-found", "service-found-tcp", "service-found-udp"};
+        static const char *on[] = {"neither", "protocol-found", "service-found-tcp", "service-found-udp", "service-found-but-its-protocol-unknown"};
         if (proto.first && !port.first) ctx.label(std::string("lookup:") + on[outcome]);
         for (int k = 0; k < 7; k++) if (!want[(size_t)k].first) ctx.label(std::string("absent:") + kComp[k]);
         if (passwd.first && passwd.second.find(':') != std::string::npos) ctx.label("colon-in-passwd");
@@ -104,7 +104,7 @@ struct Interp {
         std::string text = op.s(0);
         for (auto &ch : text) if (ch == 0) ch = '0';
         std::string word = op.s(1);
-        LA(c14_lookup(word.c_str(), (int)(((op.i(0) % 4) + 4) % 4), (int)(op.i(1) % 65536)));
+        LA(c14_lookup(word.c_str(), (int)(((op.i(0) % 5) + 5) % 5), (int)(op.i(1) % 65536)));
         int ok = LA(c14_parse(0, text.data(), (long)text.size(), (int)(op.i(2) & 1 ? 0xFF : 0x00)));
         VT_CHECK(ctx, ok == 1, "mismatch", "parse-failed; new_from_ptr returned NULL");
         Comps got = read(0);
@@ -150,7 +150,7 @@ rc::Gen<Op> gen_tuple_op() {
         Op o = mk("tuple");
         long mask = 0;
         for (int k = 0; k < 7; k++) if (*range(0, 9) < 6) mask |= 1L << k;
-        o.ints = {mask, *range(0, 1), *range(0, 3), *rc::gen::elementOf(std::vector<long>{80, 21, 443, 8080, 1, 65535, 10000}), *range(0, 1)};
+        o.ints = {mask, *range(0, 1), *range(0, 4), *rc::gen::elementOf(std::vector<long>{80, 21, 443, 8080, 1, 65535, 10000}), *range(0, 1)};
         // (families of scheme words that are prefixes of one another: a parse must not remember the previous one's lookup)
         std::string proto = *rc::gen::elementOf(std::vector<std::string>{"http", "ftp", "tcp", "udp", "ip", "file", "x9", "unix", "HTTP", "zz", "https", "httpx", "htt", "ftps", "ft", "pop3", "pop3s"});
         std::string user = *text_over("abcXYZ019._-", 8), passwd = *text_over("abcXYZ019._-:", 8), host = *text_over("abcxyz019.-", 12);
@@ -177,7 +177,7 @@ rc::Gen<Case> gen_raw() {
         for (long i = 0; i < n; i++) { int k = (int)*range(0, 9); if (k < 4) t.push_back(*rc::gen::elementOf(std::string(":/@?#"))); else if (k < 8) t.push_back(*rc::gen::elementOf(std::string("abctpu019.-"))); else t.push_back((char)*range(1, 255)); }
         std::string word = *rc::gen::elementOf(std::vector<std::string>{"tcp", "http", "a", "", "udp"});
         if (*range(0, 2) == 0 && !t.empty()) t = word + ":" + t;
-        Case c = {mk("raw", {*range(0, 3), *range(0, 65535), *range(0, 1)}, {t, word})};
+        Case c = {mk("raw", {*range(0, 4), *range(0, 65535), *range(0, 1)}, {t, word})};
         return c;
     });
 }
